@@ -458,9 +458,18 @@ impl Script for C08Script {
                 }
                 if let Some(depth) = self.deep_nesting {
                     // Field-aware mutation: nesting deepened in the result metadata.
+                    // Nested through lists, one-element tuples, tuples announcing 65535
+                    // elements (only the first is there), or UDTs announcing 65535 fields.
+                    let kind = depth % 4;
                     let mut raw = Vec::new();
                     for _ in 0..depth {
-                        raw.extend_from_slice(&[0x00, 0x20]);
+                        match kind {
+                            0 => raw.extend_from_slice(&[0x00, 0x20]),
+                            1 => raw.extend_from_slice(&[0x00, 0x31, 0x00, 0x01]),
+                            2 => raw.extend_from_slice(&[0x00, 0x31, 0xff, 0xff]),
+                            // udt: keyspace "k", name "u", 65535 fields, first field "f"
+                            _ => raw.extend_from_slice(&[0x00, 0x30, 0x00, 0x01, b'k', 0x00, 0x01, b'u', 0xff, 0xff, 0x00, 0x01, b'f']),
+                        }
                     }
                     raw.extend_from_slice(&[0x00, 0x09]);
                     let cols = vec![col("ks1", "wide", "deep", CType::Raw(0x0020, raw))];
@@ -734,7 +743,8 @@ pub fn run(req: &RunRequest) -> Value {
                 },
                 mutation: if fault_free || deep || cellfuzz { None } else { Some(draw_mutation()) },
                 deep_nesting: if deep && !custom {
-                    Some([8, 64, 1000, 20_000, 120_000][tape::choose("c08:depth", 5) as usize])
+                    // (depth mod 4 selects the wrapper kind)
+                    Some([8, 64, 1000, 20_000, 120_000, 9, 65, 250, 10, 66, 251, 255, 67, 1001][tape::choose("c08:depth", 14) as usize])
                 } else {
                     None
                 },
@@ -771,6 +781,11 @@ pub fn run(req: &RunRequest) -> Value {
                     None
                 },
             }
+        };
+        // Debugging aid (never set by the checks): force the nesting depth of sampled runs.
+        let plan = match std::env::var("DSIM_C08_DEPTH").ok().and_then(|v| v.parse::<usize>().ok()) {
+            Some(d) if !plan.enumerated => Plan { deep_nesting: Some(d), mutation: None, custom_types: None, ..plan },
+            _ => plan,
         };
         let mut cluster = Cluster::new("c08");
         let shards = if plan.sharded { 2 } else { 0 };
